@@ -216,6 +216,14 @@ func c20Replay(t *testing.T, e Env, out *Out) {
 		out.Add(c20TableCase(t))
 	case "sites":
 		out.Add(c20SitesCase(t))
+	case "hints":
+		var rp c20SrcReplay
+		_ = json.Unmarshal(e.Replay, &rp)
+		for _, c := range c20HintCases(t) {
+			if c.Replay.(c20SrcReplay).Name == rp.Name {
+				out.Add(c)
+			}
+		}
 	case "whitelist":
 		var rp c20SrcReplay
 		_ = json.Unmarshal(e.Replay, &rp)
@@ -287,6 +295,10 @@ func runC20(t *testing.T, e Env) {
 	}
 	out.Add(c20SitesCase(t))
 	out.Count("source:storage-call-sites")
+	for _, c := range c20HintCases(t) {
+		out.Add(c)
+		out.Count("source:error-text-in-hint-sites")
+	}
 	// the table read from the source names only variables the harness can exercise
 	for _, en := range c20ErrorTable(t) {
 		if _, ok := c20Table[en.Var]; !ok {
